@@ -235,12 +235,16 @@ def _for_shard(arg):
 def _cons_shard(arg):
     pid, seed, n, shard = arg
     acc = core.Acc(pid)
-    strat = st.tuples(st.dates(dt.date(2020, 1, 1), dt.date(2023, 11, 30)), st.integers(1, 20), st.sampled_from([0, 0, 0, 1, -1, 2, 7]),
+    strat = st.tuples(st.dates(dt.date(2020, 1, 1), dt.date(2023, 11, 30)), st.integers(1, 20),
+                      st.sampled_from([0, 0, 0, 1, -1, 2, 7, -365, -366, -730, -1461, -30, -31]),
                       st.sampled_from(["days", "day", "nights", "nächte", "tage", "night"]),
                       st.sampled_from(["dur-range", "range-dur", "range-für-dur", "range-for-dur"]))
 
     def body(c):
         a, length, off, w, order = c
+        if off < -1:
+            # the range is N days plus whole years / a month longer than the duration says
+            length, off = length - off, off
         n_ = max(0, length + off)
         if w in ("day", "night") and n_ != 1:
             w += "s"
